@@ -177,7 +177,7 @@ class Batch:
 
 class State:
     def __init__(self):
-        self.reported = 0
+        self.pending = []
         self.suites = {}
         self.refine = Batch()  # exact comparisons of the rows whose digests differ
 
@@ -197,9 +197,7 @@ def report_oracle_failure(ctx, st, su, kind, tgt, ops, observed, in_class, menu,
     if in_class and key and not anomaly and not panic and ctx.known(key, what):
         return
     su["unknown"] += 1
-    if st.reported < 5:
-        ctx.violation(what, replay)
-        st.reported += 1
+    st.pending.append((len(ops), what, replay))  # the shortest failing sequences are reported at the end
 
 
 def enum_suite(ctx, vh, batch, st, name, targets, alphabet, plen, depth):
@@ -374,7 +372,7 @@ def race_suite(ctx, vh, batch, st, handlers, goroutines, repeats):
     terms = []
     for i, r in enumerate(rows):
         terms.append(gpair(glist(gpair(gN(c), gN(n)) for c, n in r["once_hist"]),
-                           glist([gpair(gN(r["on_runs"]), gN(r["occurrences"]))])))
+                           glist([gpair(gN(r["on_runs"]), gN(r["occurrences"])), gpair(gN(r["panics"]), gN(0))])))
         ctx.count(r["handlers"], nontrivial_key=("race", r["target"], i), dist="race:%s" % r["target"])
     ctx.sample({"suite": "race", "case": rows[0]})
 
@@ -389,15 +387,25 @@ def race_suite(ctx, vh, batch, st, handlers, goroutines, repeats):
             raise RuntimeError("cannot parse race result: %s" % v[:300])
         for i in bad[:3]:
             r = rows[i]
-            ctx.violation("%s: with %d goroutines producing occurrences, Once handlers ran (count, handlers) = %s "
-                          "and the On handler ran %d times in %d occurrences"
-                          % (r["target"], r["goroutines"], r["once_hist"], r["on_runs"], r["occurrences"]),
+            ctx.violation("%s: with %d goroutines producing occurrences, Once handlers ran (count, handlers) = %s, "
+                          "the On handler ran %d times in %d occurrences, %d occurrences panicked (%s)"
+                          % (r["target"], r["goroutines"], r["once_hist"], r["on_runs"], r["occurrences"],
+                             r["panics"], r["panicmsg"]),
                           {"kind": "failing-input", "engine": "handlers", "mode": "race", "case": r})
 
     batch.add(1, "map race_oracle %s" % glist(terms), consume)
 
 
 def finish_suites(ctx, st):
+    seen = set()
+    for _, what, replay in sorted(st.pending, key=lambda x: (x[0], x[1])):
+        k = (replay["target"], repr(replay["ops"]))
+        if k in seen:
+            continue
+        seen.add(k)
+        if len(seen) > 5:
+            break
+        ctx.violation(what, replay)
     for name, su in st.suites.items():
         ctx.obligation("correspondence:" + name, "correspondence", su["agree_bad"] == 0,
                        "%d call sequences (%s), %d differ from the model" % (su["total"], su["detail"], su["agree_bad"]))
